@@ -51,3 +51,34 @@ def run(F, rep):
             # Hash may be coarser than Eq but not finer; it is listed, not judged
             rep.extra.setdefault("hash_fields", {})[short] = sorted(fh[1])
     rep.floor("C03.type-identity equality implementations read", n, 1)
+
+
+def zip_lengths(F, rep, rule):
+    """Two sequences of types are compatible only if they have the same length.  `a.iter().zip(b.iter()).all(|(x, y)| compatible(x, y))` stops at the
+    shorter one, so without a length comparison every type list is compatible with each of its extensions (`[int, str]` with `[int, str, bool]`,
+    `fn(int)` with `fn(int, str)`).  Every zip whose pairs feed Iterator::all in crate compiler is dominated by an ==/!= comparison of two len()s."""
+    import rules
+    from mir import op_local
+    LEN = ("alloc::vec::Vec::len", "core::slice::<impl [T]>::len", "compiler::ast::function_parameters::FunctionParameters::len")
+    n = 0
+    for f in F.crates["compiler"].fns:
+        for c in f.calls():
+            if not c.matches("core::iter::traits::iterator::Iterator::zip"):
+                continue
+            der = f.derived([c.dst["l"]], through_call=lambda cc, idx: True if 0 in idx else None)
+            alls = [x for x in f.calls() if x.matches(("core::iter::traits::iterator::Iterator::all", "core::iter::traits::iterator::Iterator::any"))
+                    and x.args and op_local(x.args[0]) in der]
+            if not alls:
+                continue
+            n += 1
+            lens = [x for x in f.calls() if x.matches(LEN)]
+            ok = False
+            for bi, si, dst, rv, s in f.assigns():
+                if "bin" in rv and rv["bin"] in ("Eq", "Ne") and len(lens) >= 2 and {op_local(rv["l"]), op_local(rv["r"])} <= {x.dst["l"] for x in lens}:
+                    if f.dominates(bi, c.bb):
+                        ok = True
+            fshort = mir.short(f.path)
+            rep.ob(rule, "%s compares two type lists pairwise only after comparing their lengths" % fshort, "ok" if ok else "violated",
+                   "zip(..).all(..) without a length comparison: a list of types is compatible with every extension of it", c.span, fn=f.path,
+                   key="%s|%s" % (rule, fshort))
+    rep.floor(rule + " pairwise type-list comparisons", n, 3)
